@@ -270,6 +270,9 @@ int main(int argc, char** argv) {
                                     fkind + (persist ? " (persistent)" : "") + " at output call " + std::to_string(k) + "/" + std::to_string(K) + ": rotate_output #" + std::to_string(i) + " returned normally but " + n + " holds " + std::to_string(got.size()) + " bytes instead of the " + std::to_string(want.size()) + " of the fault-free run; exceptions seen by the application: " + (any_exc ? "yes (other calls)" : "none"), rep);
                     }
                 }
+                // clause 2b: the exception came from a rotate_output (not from a block write): the documented reaction is the same - rotate to a healthy destination
+                // (the driver tries twice). An exporter that can never again be given a working output has lost everything buffered from then on.
+                if (l.failed && !l.block_write_failed && !l.recovered_rotate) R.violation("fault|no-recovery-after-failed-rotation|" + sink + "|" + compn + (persist ? "|persistent" : "|single"), "rotate_output threw, and so did both attempts to rotate to a healthy destination: " + l.recovery_error, rep);
                 // clause 2: recovery after a failed block write
                 if (l.block_write_failed) {
                     if (l.buffered_after_fail != l.buffered_before_fail) R.violation("fault|records-lost-after-failed-block-write|" + sink + "|" + compn, "block write threw; buffered items before " + std::to_string(l.buffered_before_fail) + ", after " + std::to_string(l.buffered_after_fail), rep);
